@@ -430,3 +430,77 @@ Definition wf_spectrum {num} (s : spectrum num) : bool :=
   && Nat.eqb (length (sp_mask s)) (nprod (sp_shape s))
   && labels_len_ok (sp_shape s) (sp_labels s)
   && match sp_labels s with None => true | Some ls => forallb label_ok ls end.
+
+(* ------------------------------------------------------------------------------------------- *)
+(** * Strided views: how numpy holds the entries of an array in memory
+
+    A numpy array is a window on a memory block: the entry with index (i_0, ..., i_{d-1}) sits at position
+    [v_off + i_0 * s_0 + ... + i_{d-1} * s_{d-1}] of the block.  A freshly built array is C-contiguous
+    ([c_strides]); [a.transpose(...)], [a.T], [a.swapaxes], [Spectrum.reorder_pops] permute shape and strides
+    without touching the block ([v_transpose]); a Fortran-ordered array has the strides of the transposed
+    C-contiguous one; [a[::2]] multiplies a stride, [a[::-1]] negates one and moves the offset;
+    [numpy.broadcast_to] (and numpy.ma.nomask read as an array) has stride 0.
+    The LOGICAL content - what [a.ravel()], indexing, comparison and the file format talk about - is [v_ravel]:
+    the entries in C order of their indices, whatever the strides.  [v_buf] read front to back is what
+    [numpy.nditer(a)], [a.ravel(order='K')] or the raw buffer deliver for a dense view (memory order).
+    The spectrum the file writers / the pickler see is [spectrum_of_views]. *)
+From Coq Require Import ZArith.
+
+Record view (A : Type) := mkView {
+  v_buf : list A;          (* the memory block, element by element, by increasing address *)
+  v_off : Z;               (* position in the block of the entry with index (0,...,0) *)
+  v_shape : list nat;
+  v_strides : list Z }.    (* per axis, in elements *)
+Arguments mkView {A}. Arguments v_buf {A}. Arguments v_off {A}. Arguments v_shape {A}. Arguments v_strides {A}.
+
+(** numpy.ndindex( *sh ): every index tuple, C order (last index fastest) *)
+Fixpoint indices (sh : list nat) : list (list nat) :=
+  match sh with
+  | [] => [[]]
+  | n :: r => flat_map (fun i => map (cons i) (indices r)) (seq 0 n)
+  end.
+
+Fixpoint v_pos (strides : list Z) (idx : list nat) : Z :=
+  match strides, idx with
+  | s :: ss, i :: r => (s * Z.of_nat i + v_pos ss r)%Z
+  | _, _ => 0%Z
+  end.
+
+(** a[idx] *)
+Definition v_get {A} (dflt : A) (v : view A) (idx : list nat) : A :=
+  let k := (v_off v + v_pos (v_strides v) idx)%Z in
+  if (k <? 0)%Z then dflt else nth (Z.to_nat k) (v_buf v) dflt.
+
+(** a.ravel(): the logical content *)
+Definition v_ravel {A} (dflt : A) (v : view A) : list A := map (v_get dflt v) (indices (v_shape v)).
+
+(** every entry lies inside the block, one stride per axis *)
+Definition v_inbounds {A} (v : view A) : bool :=
+  Nat.eqb (length (v_strides v)) (length (v_shape v))
+  && forallb (fun idx => let k := (v_off v + v_pos (v_strides v) idx)%Z in
+                         (0 <=? k)%Z && (k <? Z.of_nat (length (v_buf v)))%Z)
+             (indices (v_shape v)).
+
+(** strides of a C-contiguous array; the C-contiguous array holding the list [l] *)
+Fixpoint c_strides (sh : list nat) : list Z :=
+  match sh with
+  | [] => []
+  | _ :: r => Z.of_nat (nprod r) :: c_strides r
+  end.
+Definition c_view {A} (sh : list nat) (l : list A) : view A := mkView l 0%Z sh (c_strides sh).
+
+(** a.transpose(perm): same block, axes renamed *)
+Definition v_transpose {A} (perm : list nat) (v : view A) : view A :=
+  mkView (v_buf v) (v_off v) (map (fun k => nth k (v_shape v) 0) perm) (map (fun k => nth k (v_strides v) 0%Z) perm).
+
+(** the Spectrum whose data and mask are the two views *)
+Definition spectrum_of_views {num} (dflt : num) (dv : view num) (mv : view bool) (folded : bool)
+           (labels : option (list string)) (extrap : option num) : spectrum num :=
+  mkSpec (v_shape dv) (v_ravel dflt dv) (v_ravel false mv) folded labels extrap.
+
+(** the same Spectrum as a writer sees it that walks the two blocks in MEMORY order (numpy.nditer, ravel(order='K'),
+    tobytes(order='A'), the raw buffer) while announcing the logical shape - NOT what the code does; see
+    C14_memory_order_writer_refuted *)
+Definition spectrum_in_memory_order {num} (dv : view num) (mv : view bool) (folded : bool)
+           (labels : option (list string)) (extrap : option num) : spectrum num :=
+  mkSpec (v_shape dv) (v_buf dv) (v_buf mv) folded labels extrap.
